@@ -411,32 +411,41 @@ func (r *FnRun) appendOp(st *State, s SliceVal, tv Val, where string) Val {
 		r.havocArgs(st, []Val{res})
 		return res
 	}
+	// Contents are tracked for appends of a small literal number of elements
+	// (append(s, x)); positions are written with pos()/at(), see slices.go.
+	nlit, ok := isLit(tLen)
+	if isStr || !ok || nlit.Int64() > 4 {
+		r.note("append of a slice of unknown length: contents of the result havocked")
+		r.havocArgs(st, []Val{res})
+		return res
+	}
+	// the result's offset: the old one if the elements fit, 0 in a new array
+	o2 := r.fresh("app_off", SInt)
+	r.declareAt()
+	r.assume(Term{fmt.Sprintf("(forall ((i Int)) (! (= (at %s i) (ite %s %s i)) :pattern ((at %s i))))", o2.S, fits.S, r.posStr(s.Off, "i"), o2.S), SBool})
+	r.assume(Ge(o2, IntLit(0)))
+	res.Off = o2
 	var ls []leaf
 	r.leafPaths(s.Elem, "", &ls)
 	for _, l := range ls {
 		key := "[]" + typeKey(s.Elem) + "|" + l.path
 		arr := r.elemArr(st, key, l.sort)
 		oldA := Select(arr, s.Base)
+		tA := Select(arr, tBase)
+		// in place: the old array with the new elements stored behind the old ones
+		inPlace := oldA
+		for j := int64(0); j < nlit.Int64(); j++ {
+			inPlace = Store(inPlace, r.pos(s.Off, Add(s.Len, IntLit(j))), Select(tA, r.pos(tOff, IntLit(j))))
+		}
+		// reallocated: a new array holding a copy of the old elements, then the new ones
 		newA := r.fresh("app_elems", SArr(SInt, l.sort))
-		// prefix preserved
-		r.assume(Term{fmt.Sprintf("(forall ((i Int)) (=> (and (<= 0 i) (< i %s)) (= (select %s (+ %s i)) (select %s (+ %s i)))))",
-			s.Len.S, newA.S, res.Off.S, oldA.S, s.Off.S), SBool})
-		// in place: everything outside the appended range is unchanged
-		r.assume(Imp(fits, Term{fmt.Sprintf("(forall ((i Int)) (=> (or (< i (+ %s %s)) (>= i (+ %s %s))) (= (select %s i) (select %s i))))",
-			s.Off.S, s.Len.S, s.Off.S, newLen.S, newA.S, oldA.S), SBool}))
-		if !isStr {
-			tA := Select(arr, tBase)
-			if n, ok := isLit(tLen); ok && n.Int64() <= 4 {
-				for j := int64(0); j < n.Int64(); j++ {
-					r.assume(Eq(Select(newA, Add(Add(res.Off, s.Len), IntLit(j))), Select(tA, Add(tOff, IntLit(j)))))
-				}
-			} else {
-				r.assume(Term{fmt.Sprintf("(forall ((j Int)) (=> (and (<= 0 j) (< j %s)) (= (select %s (+ %s %s j)) (select %s (+ %s j)))))",
-					tLen.S, newA.S, res.Off.S, s.Len.S, tA.S, tOff.S), SBool})
-			}
+		r.assume(Term{fmt.Sprintf("(forall ((i Int)) (! (=> (and (<= 0 i) (< i %s)) (= (select %s i) (select %s %s))) :pattern ((select %s i))))",
+			s.Len.S, newA.S, oldA.S, r.posStr(s.Off, "i"), newA.S), SBool})
+		for j := int64(0); j < nlit.Int64(); j++ {
+			r.assume(Eq(Select(newA, Add(s.Len, IntLit(j))), Select(tA, r.pos(tOff, IntLit(j)))))
 		}
 		na := r.fresh("m_"+shortKey(key), arr.Sort)
-		r.assume(Eq(na, Store(arr, res.Base, newA)))
+		r.assume(Eq(na, Ite(fits, Store(arr, s.Base, inPlace), Store(arr, nb, newA))))
 		st.heap[key] = na
 	}
 	return res
@@ -455,7 +464,7 @@ func (r *FnRun) copyOp(st *State, dst SliceVal, srcv Val, where string) Val {
 		isStr = true
 	}
 	n := r.define("copied", Ite(r.idxLe(dst.Len, sLen), dst.Len, sLen))
-	if r.bv || isStr || !r.contents {
+	if r.bv || isStr || !r.contents || dst.Off.S != "0" || src.Off.S != "0" {
 		r.havocArgs(st, []Val{dst})
 		return n
 	}
